@@ -2447,6 +2447,7 @@ void DGXMLScanner::scanReset(const InputSource& src)
     // Reset some status flags
     fInException = false;
     fStandalone = false;
+    fXMLVersion = XMLReader::XMLV1_0;
     fErrorCount = 0;
     fHasNoDTD = true;
 
